@@ -141,19 +141,28 @@ pub fn gen_bigram_ext(rng: &mut Rng, nr: usize, nl: usize, min_k: usize, max_k: 
 }
 
 pub fn gen_dict(rng: &mut Rng, cfg: &GenCfg) -> ADict {
-    // categories
-    let mut names = vec!["ALPHA", "KANJI", "SYM", "X9"];
+    // categories: usually a handful; one dictionary in five uses 12-18 of them (the category set
+    // is an 18-bit mask and the base id an 8-bit field: high ids must work like low ones)
+    let many = rng.chance(1, 5);
+    let all_names: Vec<String> = if many {
+        (1..18).map(|i| format!("K{i}")).collect()
+    } else {
+        vec!["ALPHA".to_string(), "KANJI".to_string(), "SYM".to_string(), "X9".to_string()]
+    };
+    let mut names: Vec<String> = all_names.clone();
     rng.shuffle(&mut names);
-    let ncat = rng.below(4);
-    let mut cats = vec![ACat { name: "DEFAULT".into(), invoke: rng.below(2) as u8, group: rng.below(2) as u8, length: rng.below(4) as u32 }];
     let with_space = cfg.want_space && rng.chance(4, 5);
-    let mut order: Vec<String> = names[..ncat].iter().map(|s| s.to_string()).collect();
+    // many: all 18 category ids (0..17) exist
+    let ncat = if many { if with_space { 16 } else { 17 } } else { rng.below(4) };
+    let glen = |rng: &mut Rng| -> u32 { match rng.below(10) { 0 => 15, 1 => 7, 2 => 4, _ => rng.below(4) as u32 } };
+    let mut cats = vec![ACat { name: "DEFAULT".into(), invoke: rng.below(2) as u8, group: rng.below(2) as u8, length: glen(rng) }];
+    let mut order: Vec<String> = names[..ncat.min(names.len())].to_vec();
     if with_space {
         let p = rng.below(order.len() + 1);
         order.insert(p, "SPACE".into());
     }
     for n in order {
-        let (i, g, l) = if n == "SPACE" && rng.chance(3, 4) { (0, 1, 0) } else { (rng.below(2) as u8, rng.below(2) as u8, rng.below(4) as u32) };
+        let (i, g, l) = if n == "SPACE" && rng.chance(3, 4) { (0, 1, 0) } else { (rng.below(2) as u8, rng.below(2) as u8, glen(rng)) };
         cats.push(ACat { name: n, invoke: i, group: g, length: l });
     }
     let space = cats.iter().position(|c| c.name == "SPACE");
@@ -162,7 +171,7 @@ pub fn gen_dict(rng: &mut Rng, cfg: &GenCfg) -> ADict {
     // range lines over the letters (U+0000 is never covered: F19)
     let mut ranges = vec![];
     let isolated = cfg.space_isolated || rng.chance(3, 4);
-    let nlines = rng.below(6);
+    let nlines = if many { 6 + rng.below(8) } else { rng.below(6) };
     for _ in 0..nlines {
         let a = *rng.pick(LETTERS);
         let (lo, hi) = match rng.below(4) {
